@@ -1188,6 +1188,20 @@ func genC06(r *Run) {
 			r.Add(eV4Reenc, b)
 		}
 	}
+	// relay headers cut short (2..33 octets) whose remainder happens to tile as options: accepted or not, what is
+	// accepted must survive re-encoding; the same nested in a relay-message option
+	for cut := 2; cut <= 34; cut++ {
+		hdr := append([]byte{byte(12 + cut%2), byte(cut)}, r.Addr16()...)
+		hdr = append(hdr, r.Addr16()...)
+		for _, tail := range [][]byte{tlvb(18, []byte{0xde, 0xad, 0xbe, 0xef}), tlvb(8, []byte{0, 1}), nil, tlvb(0xff01, make([]byte, 16))} {
+			b := append(append([]byte{}, hdr[:cut]...), tail...)
+			oracleC06v6(r, b)
+			r.Add(eV6Reenc, b)
+			outer := append(append([]byte{12, 0}, make([]byte, 32)...), tlvb(9, b)...)
+			oracleC06v6(r, outer)
+			r.Add(eV6Reenc, outer)
+		}
+	}
 	// every known option type with each octet of its value in turn set to the values where ranges end (0, 1, 32, 33,
 	// 127..129, 255): accepted or not, what is accepted must survive re-encoding
 	for _, c := range knownV6Codes {
